@@ -27,5 +27,26 @@ PROPS = {
     },
 }
 
+PROPS["C02"] = {
+    "id": "C02",
+    "lean_modules": ["JT.Props.C02"],
+    "functional_ops": ["dec", "decv"],
+    "rule": ("`decv`: frames built by the harness from the standard's layout (both versions, fragment/encryption/reserved bits, all phone shapes, bodies 0..1023) incl. the tolerated unescaped-7d checksum; "
+             "`dec`: their truncations, extensions, single-bit and single-byte corruptions, wrong declared length with valid checksum, flipped fragment/version bit, bad escape pairs, short headers with valid checksum, wrong checksum; "
+             "random strings (uniform and over the alphabet 7e,7d,01,02,00,30,ff); EXHAUSTIVELY every string of length <= 5 (quick) / <= 6 (thorough) over that alphabet; every single-byte corruption of a few short frames. "
+             "distinct = distinct byte strings; non-trivial = every case (accept and reject are both informative here)."),
+    "technique": "Lean 4 proof that the decoder model accepts exactly the declaratively specified well-formed frames + differential correspondence (any divergence is a failing input)",
+    "level_text": ("Machine-checked Lean 4 theorem decode f = ok m <-> WellFormed f m for ALL byte strings, where WellFormed is a declarative specification written from the standard "
+                   "(inductive escape relation with the one tolerated deviation, XOR = 0, header layout per version and fragment flag, body length = declared length), plus functionality and totality "
+                   "(never panics; err exactly on non-well-formed input). Because model = specification is proved for every input, any input on which the Go decoder and the model differ is itself a violation; "
+                   "the run compares them on generated, corrupted and exhaustively enumerated short strings."),
+    "level_note": "Trusted: Lean kernel; the specification JT/Spec/Frame.lean (my reading of JT/T 808); the sampled tie between model and Go code; harness. Axioms: propext, Classical.choice, Quot.sound.",
+    "trusted_base": [KERNEL, AXIOMS, TIE, HARNESS, "specification JT/Spec/Frame.lean: reading of the JT/T 808 frame layout",
+                     "modelled rather than verified: Go slices as value lists; bytes.ContainsRune as byte membership"],
+    "assumptions": ["the Lean model mirrors protocol/jt808 JTMessage.Decode (validated by the correspondence check, exhaustively on short strings over the special alphabet)",
+                    "error identity is not compared (all errors are `err`)"],
+    "shrink": True,
+}
+
 # properties that are not claimed, with the reason (anything not listed and not in PROPS gets a generic "not built yet")
 NOT_APPLICABLE = {}
